@@ -486,7 +486,7 @@ func genC11(g *gen) {
 	}
 }
 
-var unaryOps = []string{"neg", "inv", "square", "cube", "exp", "tanh", "log", "log2", "log10", "sqrt", "cbrt", "invsqrt", "abs", "sign", "clamp", "apply"}
+var unaryOps = []string{"neg", "inv", "square", "cube", "exp", "tanh", "log", "log2", "log10", "sqrt", "cbrt", "invsqrt", "abs", "sign", "clamp", "apply", "applyerr"}
 
 // C12: unary maths and mapped functions.
 func genC12(g *gen) {
